@@ -297,6 +297,9 @@ class Region(object):
                     self.pixeldict[self.maxdepth].add(pp)
         if renorm:
             self._renorm()
+        else:
+            # the cached deepest-level representation is no longer valid
+            self.demoted = set()
         return
 
     def without(self, other):
